@@ -394,6 +394,7 @@ class WSGITask(Task):
                     else:
                         # As per WSGI spec existing headers must be cleared
                         self.response_headers = []
+                        self.content_length = None
                 finally:
                     exc_info = None
 
